@@ -40,7 +40,11 @@ THEOREMS = ["SysLoss.C19." + t for t in (
     "legend_fresh", "heat_order", "mix_order", "heat_max_warm", "heat_zero_cold", "heat_colour_order", "colour_warm",
     "colour_cold", "heat_colour_defined", "clamp_id", "legend_label", "no_legend", "nice_float_3sig", "decade_bounds",
     "nice_float_si_range", "heat_loss_weighted", "heat_label_loss", "renderedId_of_no_backslash",
-    "nodes_exact_rendered_partial", "edges_rendered_partial", "cluster_rendered_partial", "c19_nodes_full_fails")]
+    "nodes_exact_rendered_partial", "edges_rendered_partial", "cluster_rendered_partial", "c19_nodes_full_fails",
+    # Props/C19Order: the diagram does not depend on the order in which components / links / loss rows are listed
+    "diag_order_free", "diag_order_free_heat", "heatSame_of_perm", "diag_order_free_rows", "diag_order_free_ok", "diag_node_attrs_order_free",
+    "diag_nodes_perm", "diag_edges_perm", "legend_order_free", "freshScale_congr", "maxOf_congr", "maxOf_perm", "error_order_dependent")]
+MODULES = ["SysLoss.Props.C19", "SysLoss.Props.C19Order"]
 RULE = ("random power trees from gen.gen_system (<=24 nodes, groups, rails, PMux, load phases) with component / group / "
         "system names drawn from an alphabet with spaces, digits, punctuation, : \" < > { } | \\ and unicode (plus DOT keywords, "
         "`Scale`, leading %, class names, `default`), rendered by make_diag and "
